@@ -26,15 +26,16 @@ void *nondet_voidp(void);
     xv_ap_base = NULL; xv_ap_len = nondet_size_t(); xv_ap_j = nondet_size_t(); xv_ap_q = nondet_size_t(); xv_ap_a = nondet_size_t(); \
     xv_ap_trust_shape = 1; /* as in the job of attr_path_parse: see contracts/attrpath.h */ \
     xv_ap_g_comp = nondet_voidp(); xv_ap_g_key = nondet_voidp(); xv_ap_strtol_val = nondet_long(); xv_ap_strtol_used = nondet_size_t(); \
-    xv_atr_hit = nondet_voidp(); xv_atr_lookup_calls = nondet_long(); \
+    xv_atr_h_kind = nondet_int(); xv_atr_h_type = nondet_int(); xv_atr_h_set = nondet_bool(); xv_atr_h_get = nondet_bool(); xv_atr_lookup_calls = nondet_long(); \
     xv_atr_g_sock = nondet_voidp(); xv_atr_g_ctx = nondet_voidp(); xv_atr_g_value = nondet_voidp(); xv_atr_g_len = nondet_size_t(); \
     xv_atr_g_buf = nondet_voidp(); xv_atr_g_cap = nondet_size_t(); xv_atr_g_byte = nondet_uchar(); xv_atr_g_type = nondet_int(); \
     xv_atr_need = nondet_size_t(); \
     xv_atr_set_calls = nondet_long(); xv_atr_set_good = nondet_long(); xv_atr_set_rv = nondet_int(); xv_atr_set_errno = nondet_int(); \
     xv_atr_get_calls = nondet_long(); xv_atr_get_good = nondet_long(); xv_atr_get_rv = nondet_int(); xv_atr_get_errno = nondet_int(); \
-    xv_atr_get_cap = nondet_size_t(); xv_atr_cb_calls = nondet_long(); xv_atr_cb_good = nondet_long(); \
+    xv_atr_get_cap = nondet_size_t(); xv_atr_g_name = nondet_voidp(); xv_atr_g_cbdata = nondet_voidp(); xv_atr_mark = nondet_uchar(); xv_atr_cb_calls = nondet_long(); xv_atr_cb_good = nondet_long(); \
 } while (0)
 /* the stubs' addresses are taken here: the only candidates for the set/get members of a value node */
 const attr_set xv_atr_setter_p = xv_atr_setter;
 const attr_get xv_atr_getter_p = xv_atr_getter;
+const xcm_attr_cb xv_atr_cb_p = xv_atr_cb;
 #endif
